@@ -7,25 +7,19 @@ import (
 	"os"
 
 	"verif/internal/mon"
-	"verif/internal/ref"
 )
 
 func main() {
 	for _, f := range os.Args[1:] {
-		rp, err := mon.LoadReplay(f)
-		if err != nil {
-			panic(err)
-		}
-		var c struct {
-			Entry string
-			Data  string
-			FI    []int
-		}
+		rp, _ := mon.LoadReplay(f)
+		var c struct{ Data string }
 		json.Unmarshal(rp.Desc, &c)
 		d, _ := base64.StdEncoding.DecodeString(c.Data)
-		fmt.Printf("== %s class=%s entry=%s len=%d fi=%v\n", f, rp.Class, c.Entry, len(d), c.FI)
-		if inf, err := ref.WalkJ2K(d); inf != nil {
-			fmt.Printf("   walk err=%v SIZ=%+v\n   COD=%+v\n   QCD=%+v tileparts=%d\n", err, inf.SIZ, inf.COD, inf.QCD, len(inf.TileParts))
+		fmt.Printf("== %s len=%d\n", f, len(d))
+		for i := 0; i+9 < len(d); i++ {
+			if d[i] == 0xFF && (d[i+1] >= 0xC0 && d[i+1] <= 0xC3 || d[i+1] == 0xF7) {
+				fmt.Printf("  SOF@%d marker=%02X L=%d P=%d H=%d W=%d Nf=%d comps=%x\n", i, d[i+1], int(d[i+2])<<8|int(d[i+3]), d[i+4], int(d[i+5])<<8|int(d[i+6]), int(d[i+7])<<8|int(d[i+8]), d[i+9], d[i+10:min(i+19, len(d))])
+			}
 		}
 	}
 }
